@@ -102,7 +102,16 @@ struct Child {
     proc: std::process::Child,
     out: PathBuf,
     inflight: PathBuf,
+    /// the binary this shard runs (the main build, or the build without debug assertions)
+    exe: PathBuf,
+    nd: bool,
 }
+
+/// properties whose generators are also run against flurry compiled WITHOUT debug assertions and
+/// overflow checks (four extra shards with their own seeds): a change can hide behind
+/// `debug_assert!`, `cfg(debug_assertions)` or wrapping arithmetic
+const ND_PROPS: [&str; 8] = ["C01", "C02", "C03", "C04", "C05", "C10", "C13", "C14"];
+const ND_SHARDS: usize = 4;
 
 /// what a crashed replay printed last on stderr (panic message, allocator abort text, ...)
 fn stderr_tail_of(file: &Path) -> String {
@@ -305,9 +314,12 @@ fn parent(prop: &str, tier: Tier, seed: u64, jobs: usize) -> i32 {
 
     // 2. shards
     let nshards = (def.shards)(tier).max(1);
-    let mut pending: Vec<usize> = (0..nshards).rev().collect();
+    let nd_exe: Option<PathBuf> = std::env::var_os("FVH_ND_BIN").map(PathBuf::from).filter(|p| p.exists() && ND_PROPS.contains(&prop) && nshards >= ND_SHARDS);
+    let nd_extra = if nd_exe.is_some() { ND_SHARDS } else { 0 };
+    let mut pending: Vec<usize> = (0..nshards + nd_extra).rev().collect();
     let mut running: Vec<Child> = Vec::new();
     let mut merged = ShardOut::default();
+    let mut merged_nd = ShardOut::default();
     let watchdog = Duration::from_secs((def.watchdog)(tier));
     let mut timed_out = false;
     while !pending.is_empty() || !running.is_empty() {
@@ -316,8 +328,12 @@ fn parent(prop: &str, tier: Tier, seed: u64, jobs: usize) -> i32 {
             let out = tmp.join(format!("shard{}.json", i));
             let inflight = tmp.join(format!("shard{}.inflight", i));
             let _ = std::fs::remove_file(&out);
-            let proc = Command::new(&exe)
-                .args(["shard", prop, "--tier", tier_s, "--seed", &seed.to_string(), "--shard", &i.to_string(), "--nshards", &nshards.to_string()])
+            let nd = i >= nshards;
+            let this_exe = if nd { nd_exe.clone().unwrap() } else { exe.clone() };
+            let (sidx, sseed) = if nd { (i - nshards, seed.wrapping_add(7777)) } else { (i, seed) };
+            let proc = Command::new(&this_exe)
+                // (an ND shard takes half the share of a regular shard)
+                .args(["shard", prop, "--tier", tier_s, "--seed", &sseed.to_string(), "--shard", &sidx.to_string(), "--nshards", &(if nd { nshards * 2 } else { nshards }).to_string()])
                 .arg("--out")
                 .arg(&out)
                 .arg("--inflight")
@@ -326,7 +342,7 @@ fn parent(prop: &str, tier: Tier, seed: u64, jobs: usize) -> i32 {
                 .stderr(Stdio::null())
                 .spawn()
                 .expect("spawn shard");
-            running.push(Child { idx: i, proc, out, inflight });
+            running.push(Child { idx: i, proc, out, inflight, exe: this_exe, nd });
         }
         let mut k = 0;
         while k < running.len() {
@@ -336,7 +352,13 @@ fn parent(prop: &str, tier: Tier, seed: u64, jobs: usize) -> i32 {
                     let ok = st.success() && c.out.exists();
                     if ok {
                         match std::fs::read(&c.out).ok().and_then(|b| serde_json::from_slice::<ShardOut>(&b).ok()) {
-                            Some(o) => merged.merge(o),
+                            Some(o) => {
+                                if c.nd {
+                                    merged_nd.merge(o)
+                                } else {
+                                    merged.merge(o)
+                                }
+                            }
                             None => inconclusive.push(format!("shard {} wrote an unreadable result", c.idx)),
                         }
                     } else {
@@ -346,6 +368,7 @@ fn parent(prop: &str, tier: Tier, seed: u64, jobs: usize) -> i32 {
                                 let h = runner::hash_str(&String::from_utf8_lossy(&b));
                                 let rp = found_dir.join(format!("{}-crash-{:016x}.json", prop, h));
                                 let _ = std::fs::write(&rp, &b);
+                                let exe = c.exe.clone();
                                 let (code, outp) = run_replay_file(&exe, prop, &rp, Duration::from_secs(300));
                                 match code {
                                     Some(0) => inconclusive.push(format!("shard {} died ({:?}) but its in-flight case passes on replay ({})", c.idx, st, rp.display())),
@@ -384,18 +407,30 @@ fn parent(prop: &str, tier: Tier, seed: u64, jobs: usize) -> i32 {
         inconclusive.push(format!("watchdog: not finished after {} s", watchdog.as_secs()));
     }
 
-    // 3. violations found by shards: write replay files, confirm each once
-    for Viol { prop: vp, msg, replay } in merged.violations.clone() {
-        let js = serde_json::to_string_pretty(&replay).unwrap();
-        let h = runner::hash_str(&js);
-        let rp = found_dir.join(format!("{}-{:016x}.json", prop, h));
-        let _ = std::fs::write(&rp, &js);
-        let (code, outp) = run_replay_file(&exe, prop, &rp, Duration::from_secs(300));
-        match code {
-            Some(0) => inconclusive.push(format!("a reported failure did not reproduce from its replay file {} ({})", rp.display(), msg)),
-            Some(2) => inconclusive.push(format!("replay of {} inconclusive: {}", rp.display(), outp.trim())),
-            _ => violations.push((vp, msg, rp)),
+    // 3. violations found by shards: write replay files, confirm each once (with the binary that found it)
+    for (from_nd, list) in [(false, merged.violations.clone()), (true, merged_nd.violations.clone())] {
+        for Viol { prop: vp, msg, replay } in list {
+            let js = serde_json::to_string_pretty(&replay).unwrap();
+            let h = runner::hash_str(&js);
+            let rp = found_dir.join(format!("{}-{:016x}.json", prop, h));
+            let _ = std::fs::write(&rp, &js);
+            let the_exe = if from_nd { nd_exe.clone().unwrap() } else { exe.clone() };
+            let (code, outp) = run_replay_file(&the_exe, prop, &rp, Duration::from_secs(300));
+            let msg = if from_nd { format!("{} [flurry built without debug assertions and overflow checks]", msg) } else { msg };
+            match code {
+                Some(0) => inconclusive.push(format!("a reported failure did not reproduce from its replay file {} ({})", rp.display(), msg)),
+                Some(2) => inconclusive.push(format!("replay of {} inconclusive: {}", rp.display(), outp.trim())),
+                _ => violations.push((vp, msg, rp)),
+            }
         }
+    }
+    if nd_extra > 0 {
+        let ev = merged_nd.evaluations;
+        let nt = merged_nd.nontrivial.len() as u64;
+        merged_nd.violations.clear();
+        merged.merge(merged_nd);
+        merged.class("evaluations_against_the_build_without_debug_assertions", ev);
+        merged.class("nontrivial_cases_against_the_build_without_debug_assertions", nt);
     }
 
     // 4. evidence
